@@ -97,6 +97,15 @@ func c01Sequential(r *core.Run, idx int, rng *rand.Rand) {
 			late = "key_mismatch"
 		}
 	}
+	if idx%10 == 4 || idx%10 == 7 {
+		// a user record of several kilobytes of poorly compressible data (a reply that no longer fits a short URL)
+		vals := make([]string, 300+rng.Intn(600))
+		for i := range vals {
+			vals[i] = "U_" + canary + "g" + randHex(rng, 16)
+		}
+		sc.U.Custom = append(sc.U.Custom, sim.Custom{Name: "groups", Format: basicFormat, Values: vals})
+		sc.S.Binding = spsim.BindRedirect
+	}
 	e := sc.build()
 	// a second, completed session of another user lives in the same world
 	other := randScenario(rng, canary+"o", false)
